@@ -155,3 +155,8 @@ package abci
 //@   loop 1 invariant forall j, k int :: 0 <= j && j < k && k < len(resultsDeliverTx) ==> resultsDeliverTx[j] != resultsDeliverTx[k]
 //@   precall proposalState\)\.setResults$ :: argIs(1, resultsDeliverTx) && len(resultsDeliverTx) == len(txs) && (forall j, k int :: 0 <= j && j < k && k < len(resultsDeliverTx) ==> resultsDeliverTx[j] != resultsDeliverTx[k])
 //@   note the cached per-transaction results are as many as the transactions and are pairwise distinct objects, each created for its own DeliverTx call (an aliased result variable would make every cached entry show the last transaction's result, so that cached and re-executed blocks report different results)
+
+//@ func abciMux.prepareSystemTxs
+//@   props C01
+//@   ensures-local err == nil ==> len(systemTxs) == 1 && len(systemTxResults) == 1 && systemTxResults[0] != nil && systemTxResults[0].Code == types.CodeTypeOK && bytesId(systemTxResults[0].Data) == uf("cborMarshal", nil) && bytesId(systemTxs[0]) == bytesId(sigBlockMetaRaw)
+//@   note the result the proposer caches for the block-metadata transaction is exactly what executing that transaction yields on every other node: code OK and the CBOR encoding of nil as data (DeliverTx encodes the - absent - transaction output with cbor.Marshal)
